@@ -349,6 +349,24 @@ def tap(rec, path):
     return _tap
 
 
+def feedback_on_completion(ctx):
+    """An identity operator of the harness that closes a feedback loop: once it has forwarded
+    the completion of a key (a window, a segment ...), it pushes the next source item, i.e.
+    from inside that notification."""
+    import rxsci as rs
+
+    def _fb(source):
+        def on_subscribe(observer, scheduler):
+            def on_next(i):
+                observer.on_next(i)
+                if type(i) is rs.OnCompletedMux and 'push' in ctx and ctx.get('in_item'):
+                    ctx['push']()
+            return source.subscribe(on_next=on_next, on_error=observer.on_error,
+                                    on_completed=observer.on_completed, scheduler=scheduler)
+        return rs.MuxObservable(on_subscribe)
+    return _fb
+
+
 # ------------------------------------------------------------------ descriptor -> operators
 
 def real_op(op, rec, pre, i, ctx):
@@ -365,8 +383,14 @@ def real_op(op, rec, pre, i, ctx):
     if o == 'flat_map':
         return rs.ops.flat_map()
     if o == 'identity':
+        if op.get('fb') == 'd':
+            return feedback_on_completion(ctx)
         return rs.ops.identity()
     if o == 'do_action':
+        if op.get('fb') == 'd':
+            # feedback: when a key (window, segment ...) completes here, the next source item
+            # is pushed from inside that notification
+            return rs.ops.do_action(on_completed=lambda k: ctx['push']() if k is not None and 'push' in ctx else None)
         return rs.ops.do_action(on_next=lambda i: None)
     if o == 'progress':
         return rs.ops.progress('verif', 1000000, measure_throughput=False)
@@ -536,7 +560,7 @@ def _push(src, ev):
 
 
 def run_mux(pipe, events, timescale=None, taps='all', dl_late=False, share_ops=False, warmup=None,
-            store_split=None):
+            store_split=None, feedback=None):
     """Push mux events directly on a MuxObservable (as the repository's own tests do).
     events: [{'t':'c'|'n'|'d', 'k':[idx], 'v':value}] ; the source completes at the end
     unless the last event is {'t':'open'}."""
@@ -578,14 +602,44 @@ def run_mux(pipe, events, timescale=None, taps='all', dl_late=False, share_ops=F
             rec.reset()
         if not dl_late:
             _subscribe_routers(rec, ctx)
-        obs.subscribe(on_next=lambda i: None, on_error=on_error, on_completed=on_completed)
+        # Re-entrant delivery (a feedback loop through the source Subject): with
+        # feedback='end' the subscriber pushes the next source item from inside its on_next;
+        # a do_action with fb='d' inside the pipeline does so when a key completes there.
+        # The source order is the order of `events` either way.
+        pos = [0]
+        depth = [0]
+
+        def push_nested():
+            if pos[0] < len(events) and events[pos[0]]['t'] == 'n' and depth[0] < 40 \
+                    and rec.end['t'] == 'open':
+                ev = events[pos[0]]
+                pos[0] += 1
+                depth[0] += 1
+                try:
+                    _push(src, ev)
+                finally:
+                    depth[0] -= 1
+        ctx['push'] = push_nested
+
+        cur = [None]       # type of the source event pushed at the top level
+
+        def on_next(i):
+            # only outputs caused by an item: an output that a completion causes (a reduce, a
+            # flush) belongs to the end of its key, no later item of the source can precede it
+            if feedback == 'end' and type(i) is rs.OnNextMux and cur[0] == 'n':
+                push_nested()
+        obs.subscribe(on_next=on_next, on_error=on_error, on_completed=on_completed)
         if dl_late:      # the dead-letter observable is subscribed after the data pipeline
             _subscribe_routers(rec, ctx)
         try:
             complete = True
-            for ev in events:
+            while pos[0] < len(events):
+                ev = events[pos[0]]
+                pos[0] += 1
                 if rec.end['t'] != 'open':
                     break
+                cur[0] = ev['t']
+                ctx['in_item'] = ev['t'] == 'n'
                 _push(src, ev)
                 if ev['t'] == 'open':
                     complete = False
